@@ -1203,8 +1203,8 @@ KNOWN_PREDICATES = {
 }
 
 SUBCHECKS = [
-    SubCheck('rv_algebra', lambda: RV_SPEC, run_rv_algebra, quick=3600, thorough=60000),
-    SubCheck('psd_repair', lambda: PSD_SPEC, run_psd_repair, quick=2000, thorough=30000),
-    SubCheck('conversions', lambda: CONV_SPEC, run_conversions, quick=1000, thorough=15000),
-    SubCheck('ucp', lambda: UCP_SPEC, run_ucp, quick=1400, thorough=25000),
+    SubCheck('rv_algebra', lambda: RV_SPEC, run_rv_algebra, quick=3600, thorough=37440),
+    SubCheck('psd_repair', lambda: PSD_SPEC, run_psd_repair, quick=2000, thorough=20800),
+    SubCheck('conversions', lambda: CONV_SPEC, run_conversions, quick=1000, thorough=10400),
+    SubCheck('ucp', lambda: UCP_SPEC, run_ucp, quick=1400, thorough=14560),
 ]
